@@ -2,6 +2,7 @@ package main
 
 import (
 	"fmt"
+	"strings"
 	"go/token"
 	"go/types"
 
@@ -84,8 +85,8 @@ func frameContainers(p *Prog, fn *ssa.Function) map[ssa.Value]bool {
 				out[t] = true
 			}
 		case *ssa.Return:
-			for _, r := range t.Results {
-				if isNamedColumnContainer(p, r.Type()) {
+			for i, r := range t.Results {
+				if isNamedColumnContainer(p, r.Type()) && resultBecomesFrameField(p, fn, i) {
 					back(r, 0)
 				}
 			}
@@ -208,12 +209,7 @@ func runR13(c *Ctx) {
 		return
 	}
 	st := nc.Underlying().(*types.Struct)
-	posIdx := -1
-	for i := 0; i < st.NumFields(); i++ {
-		if st.Field(i).Name() == "pos" {
-			posIdx = i
-		}
-	}
+	posIdx := uniqueFieldOfKind(st, types.Int)
 	if posIdx < 0 {
 		c.undecided("anchor|namedColumn.pos", "-", "field pos not found")
 		return
@@ -313,7 +309,7 @@ func runR13(c *Ctx) {
 				pv := posStore.Val
 				switch {
 				case pl.slot != nil:
-					if stripConv(pv) == stripConv(pl.slot) || sameConst(pv, pl.slot) {
+					if sameValue(pv, pl.slot) {
 						c.ok(key, pos, "pos assigned the slot index before placement")
 					} else {
 						c.bad(key, pos, fmt.Sprintf("pos is assigned %s but the column is stored at slot %s", describe(pv), describe(pl.slot)))
@@ -354,7 +350,10 @@ func sameConst(a, b ssa.Value) bool {
 
 func okLen(v ssa.Value, dst ssa.Value) bool {
 	call, ok := v.(*ssa.Call)
-	return ok && builtinName(call) == "len" && call.Call.Args[0] == dst
+	if !ok || builtinName(call) != "len" {
+		return false
+	}
+	return sameValue(call.Call.Args[0], dst)
 }
 
 // singleAppendLoopKey: pv is the key of a range loop whose header carries dst = phi[empty make, app].
@@ -407,12 +406,7 @@ func runR17(c *Ctx) {
 		return
 	}
 	st := nc.Underlying().(*types.Struct)
-	nameIdx := -1
-	for i := 0; i < st.NumFields(); i++ {
-		if st.Field(i).Name() == "name" {
-			nameIdx = i
-		}
-	}
+	nameIdx := uniqueFieldOfKind(st, types.String)
 	checkName := p.Func("internal/strings", "CheckName")
 	if nameIdx < 0 || checkName == nil {
 		c.undecided("anchor|name/CheckName", "-", "namedColumn.name or strings.CheckName not found")
@@ -583,4 +577,137 @@ func newOrderArgument(p *Prog, v ssa.Value, checkName *ssa.Function) (bool, stri
 		return true, "entry of " + sPath + ": each entry is checked to be a key of " + mapPath + ", whose keys all pass CheckName"
 	}
 	return false, ""
+}
+
+// uniqueFieldOfKind: index of the only field of the given basic kind (namedColumn has one int: the
+// position, and one string: the name), or -1.
+func uniqueFieldOfKind(st *types.Struct, k types.BasicKind) int {
+	idx, n := -1, 0
+	for i := 0; i < st.NumFields(); i++ {
+		if b, ok := st.Field(i).Type().(*types.Basic); ok && b.Kind() == k {
+			idx = i
+			n++
+		}
+	}
+	if n != 1 {
+		return -1
+	}
+	return idx
+}
+
+// resultBecomesFrameField: some caller in the root package stores result #idx of fn into a struct field
+// (a QFrame / Grouper being built).
+func resultBecomesFrameField(p *Prog, fn *ssa.Function, idx int) bool {
+	res := p.resolver()
+	found := false
+	for _, caller := range p.FuncsIn("") {
+		eachInstr(caller, func(in ssa.Instruction) {
+			call, ok := in.(*ssa.Call)
+			if !ok || found {
+				return
+			}
+			isCallee := false
+			for _, c := range res.callees(call) {
+				if c == fn {
+					isCallee = true
+				}
+			}
+			if !isCallee {
+				return
+			}
+			var vals []ssa.Value
+			if fn.Signature.Results().Len() == 1 {
+				vals = []ssa.Value{call}
+			} else {
+				for _, r := range *call.Referrers() {
+					if ex, ok := r.(*ssa.Extract); ok && ex.Index == idx {
+						vals = append(vals, ex)
+					}
+				}
+			}
+			seen := map[ssa.Value]bool{}
+			var walk func(v ssa.Value, d int)
+			walk = func(v ssa.Value, d int) {
+				if seen[v] || d > 6 || found {
+					return
+				}
+				seen[v] = true
+				for _, r := range *v.Referrers() {
+					switch t := r.(type) {
+					case *ssa.Store:
+						if t.Val != v {
+							continue
+						}
+						if _, ok := t.Addr.(*ssa.FieldAddr); ok {
+							found = true
+						}
+						if al, ok := t.Addr.(*ssa.Alloc); ok {
+							for _, ar := range *al.Referrers() {
+								if ld, ok := ar.(*ssa.UnOp); ok {
+									walk(ld, d+1)
+								}
+							}
+						}
+					case *ssa.Phi:
+						walk(t, d+1)
+					case *ssa.Call:
+						if builtinName(t) == "append" {
+							walk(t, d+1)
+						}
+					case *ssa.Slice:
+						walk(t, d+1)
+					}
+				}
+			}
+			for _, v := range vals {
+				walk(v, 0)
+			}
+		})
+	}
+	return found
+}
+
+// sameValue: a and b denote the same value: identical SSA values, equal constants, or two loads of the
+// same local variable with no assignment to it that can run between them.
+func sameValue(a, b ssa.Value) bool {
+	a, b = stripConv(a), stripConv(b)
+	if a == b || sameConst(a, b) {
+		return true
+	}
+	// a field read of a struct VALUE loaded from a local: Field(load(alloc), i)
+	fa, okA := a.(*ssa.Field)
+	fb, okB := b.(*ssa.Field)
+	if okA && okB && fa.Field == fb.Field {
+		return sameValue(fa.X, fb.X)
+	}
+	la, ok1 := a.(*ssa.UnOp)
+	lb, ok2 := b.(*ssa.UnOp)
+	if !ok1 || !ok2 {
+		return false
+	}
+	ka, okKa := cellKey(la.X)
+	kb, okKb := cellKey(lb.X)
+	if !okKa || !okKb || ka != kb {
+		return false
+	}
+	first, second := ssa.Instruction(la), ssa.Instruction(lb)
+	if precedes(second, first) {
+		first, second = second, first
+	}
+	// no store into that cell (or into the whole variable it belongs to) can run between the two loads
+	bad := false
+	eachInstr(la.Parent(), func(in ssa.Instruction) {
+		st, ok := in.(*ssa.Store)
+		if !ok || bad {
+			return
+		}
+		ks, okS := cellKey(st.Addr)
+		if !okS || !(ks == ka || strings.HasPrefix(ka, ks+".") || strings.HasPrefix(ks, ka+".")) {
+			return
+		}
+		if instrReaches(first, st) && instrReaches(st, second) {
+			bad = true
+		}
+	})
+	return !bad
 }
